@@ -984,8 +984,8 @@ def run(ctx):
     n = core.NCPU
     seeds = core.shard_seeds(ctx.seed, 'C16', n)
     per = lambda q, t: max(1, ctx.n(q, t) // n)
-    args = [(exe, seeds[i], ctx.tier, i, n, per(520000, 12000000), per(240000, 6000000),
-             per(100000, 2000000), per(8000, 200000)) for i in range(n)]
+    args = [(exe, seeds[i], ctx.tier, i, n, per(520000, 9600000), per(240000, 4800000),
+             per(100000, 1600000), per(8000, 200000)) for i in range(n)]
     res = core.pmap(_shard, args)
     core.merge(ctx, res)
     for r in res[:4]:
